@@ -73,6 +73,21 @@ pub fn dump(rt: &CoreRuntime, ranges: &[(u32, u32)]) -> Value {
     })
 }
 
+pub fn obs(rt: &CoreRuntime) -> Value {
+    let t: &TimerContext = &rt.timer;
+    let live_m = t.enabled && t.mti_period > 0;
+    let live_s = t.enabled && t.sti_period > 0;
+    let pw = if rt.state.is_off() { "off" } else if rt.state.is_halted() { "halt" } else { "run" };
+    json!({
+        "pc": rt.state.get_reg(RegName::PC), "s": rt.state.get_reg(RegName::S), "f": rt.state.get_reg(RegName::F),
+        "ba": rt.state.get_reg(RegName::BA), "i": rt.state.get_reg(RegName::I),
+        "imr": rt.memory.read_internal_byte_silent(0xFB).unwrap_or(0), "isr": rt.memory.read_internal_byte_silent(0xFC).unwrap_or(0),
+        "pw": pw, "inint": if t.in_interrupt { 1 } else { 0 }, "pend": if t.irq_pending { 1 } else { 0 },
+        "tot": t.irq_total, "instr": rt.instruction_count(), "cyc": rt.cycle_count(),
+        "nm": if live_m { t.next_mti } else { 0 }, "ns": if live_s { t.next_sti } else { 0 },
+    })
+}
+
 pub fn ranges_of(req: &Value) -> Vec<(u32, u32)> {
     req.get("ranges")
         .and_then(|r| r.as_array())
@@ -187,6 +202,50 @@ pub fn handle(ctx: &mut RtCtx, cmd: &str, req: &Value) -> Result<Value, String> 
             let addr = req["addr"].as_u64().ok_or("addr")? as u32;
             let bits = req["bits"].as_u64().unwrap_or(8) as u8;
             Ok(json!({"value": rt.memory.load(addr, bits)}))
+        }
+        // compact per-step observation for the machine traces (C12/C13/C16)
+        "rt.obs" => {
+            let rt = ctx.rts.get(&name).ok_or("no rt")?;
+            Ok(obs(rt))
+        }
+        "rt.poke" => {
+            let rt = ctx.rts.get_mut(&name).ok_or("no rt")?;
+            let addr = req["addr"].as_u64().ok_or("addr")? as usize;
+            let bytes = bytes_of(&req["bytes"])?;
+            rt.load_rom(&bytes, addr);
+            Ok(json!({}))
+        }
+        "rt.imem" => {
+            let rt = ctx.rts.get_mut(&name).ok_or("no rt")?;
+            let off = req["off"].as_u64().ok_or("off")? as u32;
+            let v = req["v"].as_u64().ok_or("v")? as u8;
+            rt.memory.write_internal_byte(off, v);
+            Ok(json!({}))
+        }
+        // make timer `which` (0 = MTI, 1 = STI) expire at the next cycle
+        "rt.fire" => {
+            let rt = ctx.rts.get_mut(&name).ok_or("no rt")?;
+            let which = req["which"].as_u64().unwrap_or(0);
+            let c = rt.cycle_count();
+            rt.timer.enabled = true;
+            if which == 0 {
+                if rt.timer.mti_period == 0 { rt.timer.mti_period = 1 << 30; }
+                rt.timer.next_mti = c + 1;
+            } else {
+                if rt.timer.sti_period == 0 { rt.timer.sti_period = 1 << 30; }
+                rt.timer.next_sti = c + 1;
+            }
+            Ok(json!({}))
+        }
+        // step once and return (pre, post, frame bytes at the new stack pointer)
+        "rt.step_obs" => {
+            let rt = ctx.rts.get_mut(&name).ok_or("no rt")?;
+            let pre = obs(rt);
+            let r = rt.step(1);
+            let post = obs(rt);
+            let s = rt.state.get_reg(RegName::S);
+            let frame: Vec<u32> = (0..5).map(|i| rt.memory.load(s + i, 8).unwrap_or(0) & 0xFF).collect();
+            Ok(json!({"pre": pre, "post": post, "frame": frame, "err": r.err().map(|e| e.to_string())}))
         }
         _ => Err(format!("unknown rt cmd {cmd}")),
     }
